@@ -52,7 +52,7 @@ def run_case(c):
     rc = tsmlib.rig_cfg(seg=c["cMax"], lq=c["lq"], lr=c["lr"], pwc=c["cPW"], pws=c["sPW"], retries=1,
                         c_max=c["cMax"], s_max=c["sMax"], c_seg=c["cSeg"], s_seg=c["sSeg"],
                         c_maxsegs=None if c["cSegs"] == 0 else c["cSegs"], s_maxsegs=None, known=c["known"], pre=c.get("pre", False), s_knows_c_max=c.get("iamMax"),
-                        reann=c.get("reann"))
+                        reann=c.get("reann"), s_npdu=c.get("npdu"))
     t = tsmlib.record(rc, limit=6000)
     return rc, t
 
@@ -124,6 +124,12 @@ CHECK_DEADLOCK FALSE
             for lq in sorted({sMax - 4, sMax - 3, sMax + 60, oldMax - 4, oldMax - 3, 2 * min(sMax, oldMax) + 7}):
                 cases.append(dict(cSeg="segmentedBoth", cMax=1476, cSegs=0, cPW=2, sSeg="segmentedBoth", sMax=sMax, sSegs=0, sPW=2,
                                   known=True, lq=lq, lr=5, reann={"max": oldMax, "when": when}))
+    # the application also recorded the largest NPDU of the path to the peer, larger than what the peer itself accepts:
+    # the peer's own limit still rules
+    for sMax, sSeg in ((480, "segmentedBoth"), (206, "noSegmentation"), (128, "segmentedTransmit"), (50, "segmentedBoth")):
+        for lq in (sMax - 4, sMax - 3, sMax + 35, 2 * sMax + 7):
+            cases.append(dict(cSeg="segmentedBoth", cMax=1476, cSegs=0, cPW=2, sSeg=sSeg, sMax=sMax, sSegs=0, sPW=2, known=True, lq=lq, lr=5,
+                              npdu=1497))
     # ... and a server that moved to an address the client knows another device by
     for oldMax, sMax in ((1476, 50), (50, 480), (1024, 128)):
         for lq in sorted({sMax - 4, sMax - 3, sMax + 60, oldMax - 4, 2 * min(sMax, oldMax) + 7}):
@@ -149,7 +155,7 @@ CHECK_DEADLOCK FALSE
                 chk.violation("Terminates", {"cSeg": c["cSeg"], "sSeg": c["sSeg"]}, {"case": c}, {"case": c})
                 continue
             o = observe(t)
-            recs.append({"id": n + 1, "c": {k: v for k, v in c.items() if k not in ("pre", "iamMax", "reann")}, "o": o, "pre": bool(c.get("pre"))})
+            recs.append({"id": n + 1, "c": {k: v for k, v in c.items() if k not in ("pre", "iamMax", "reann", "npdu")}, "o": o, "pre": bool(c.get("pre"))})
             chk.case(json.dumps(c, sort_keys=True), nontrivial=o["reqSegd"] or o["respSegd"] or o["outcome"] != "ack")
             if n < 2:
                 chk.sample({"case": c, "observation": o})
